@@ -4,6 +4,6 @@ From Verif Require Import RegAlloc.RaIRModel RegAlloc.RwRuleModel RegAlloc.RwRul
 From VerifGen Require Import C05IdiomTags.
 Extraction Blacklist List String Int.
 Extraction "rair.ml" RaIRModel.validate_full RaIRModel.validate RaIRModel.infer RaIRModel.check RaIRModel.first_bad RaIRModel.check_pc
-  RaIRModel.check_progress RaIRModel.infer_ranks RaIRModel.srun RaIRModel.trun RaIRModel.sa_step RaIRModel.id_mem
+  RaIRModel.check_progress RaIRModel.infer_ranks RaIRModel.srun RaIRModel.trun RaIRModel.sa_step RaIRModel.id_mem RaIRModel.reg_untouched
   RwRuleModel.classify RwRuleModel.idiom_of RaIRModel.consec_ok RaIRModel.lists_ok RaIRModel.check_uses RaIRModel.defs_eqs RwRuleModel.alu_of_id C05IdiomTags.idiom_tags
   RwRuleProofs.alu_sem RwRuleProofs.alu_defined.
